@@ -38,6 +38,10 @@ def corpus():
     ]
     # user node types with a field that __init__ does not take (set by __post_init__), alone and nested
     ex += [fxn.UPostInit(x), fxn.UPostInit(p.Sum((x, y))), fxn.UPostInitDefault(x), fxn.UPostInitDefault(p.Product((x, 2))), p.Sum((fxn.UPostInit(y), fxn.UPostInitDefault(y), 1))]
+    # multivectors with symbolic coefficients (containers of expressions, documented as pickleable; their hash is memoized)
+    from pymbolic.geometric_algebra import MultiVector, Space
+    sp3 = Space(3)
+    ex += [MultiVector({1: x, 2: y}, sp3), MultiVector({0: p.Sum((x, 1)), 7: p.Variable("zeta")}, sp3)]
     # the shipped legacy node types outside pymbolic.primitives
     from pymbolic.polynomial import Polynomial
     from pymbolic.rational import Rational
